@@ -72,7 +72,7 @@ Theorem accepted_digests_met_once : forall vo p out,
   verify vo p = Ok out ->
   exists a, get_alg (p_payload p) = Ok a /\ NoDup (collect (map (digest a) (p_discs p)) 0 (p_payload p)).
 Proof.
-  intros vo p out H. apply verify_ok_inv in H as (_ & _ & Hv & _).
+  intros vo p out H. apply verify_ok_inv in H as (_ & _ & _ & Hv & _).
   apply verify_disclosures_inv in Hv as (a & Ha & _ & Hn & _). exists a; split; assumption.
 Qed.
 Print Assumptions accepted_digests_met_once.
@@ -86,6 +86,12 @@ Theorem rejects_bad_issuer_signature : forall vo p, p_sig_ok p = false -> is_ok 
 Proof. exact reject_bad_signature. Qed.
 Print Assumptions rejects_bad_issuer_signature.
 
+(* the issuer-signed JWT outside its validity window (nbf / exp / iat with the verifier's leeway) *)
+Theorem rejects_outside_validity_window : forall vo p,
+  payload_time_ok vo (p_payload p) = false -> is_ok (verify vo p) = false.
+Proof. exact reject_bad_time. Qed.
+Print Assumptions rejects_outside_validity_window.
+
 (* ---- holder binding ---- *)
 Theorem binding_checked : forall vo p out,
   verify vo p = Ok out ->
@@ -93,6 +99,7 @@ Theorem binding_checked : forall vo p out,
   | None => vo_required vo = false
   | Some h =>
       get_cnf_key (p_payload p) = Ok (hb_key h) /\ hb_ok h = true /\
+      time_ok (vo_now vo) (vo_leeway vo) (hb_iat h) None None = true /\       (* iat not in the future *)
       (vo_nonce vo = "" \/ vo_nonce vo = hb_nonce h) /\ (vo_aud vo = "" \/ vo_aud vo = hb_aud h)
   end.
 Proof. exact binding_inv. Qed.
@@ -110,7 +117,7 @@ Proof.
   intros vo p Hr Hbad. destruct (verify vo p) eqn:E; try reflexivity.
   apply binding_inv in E. destruct Hbad as [Hn|(h & Hh & Hbad)].
   - rewrite Hn in E. congruence.
-  - rewrite Hh in E. destruct E as (Hk & _ & Hno & Hau).
+  - rewrite Hh in E. destruct E as (Hk & _ & _ & Hno & Hau).
     destruct Hbad as [Hb|[[Hb1 Hb2]|[Hb1 Hb2]]]; [contradiction| destruct Hno; contradiction | destruct Hau; contradiction].
 Qed.
 Print Assumptions binding_required.
@@ -138,7 +145,7 @@ Definition o2 := {| o_v5 := false; o_alg := 256; o_structured := false; o_decoys
                     o_always := []; o_recursive := []; o_iss := "iss"; o_cnf := None |}.
 Definition o5 := {| o_v5 := true; o_alg := 384; o_structured := true; o_decoys := 0; o_nonsd := [];
                     o_always := []; o_recursive := [[SKey "addr"]]; o_iss := "iss"; o_cnf := Some 1%Z |}.
-Definition vo0 := {| vo_required := false; vo_nonce := ""; vo_aud := "" |}.
+Definition vo0 := {| vo_required := false; vo_nonce := ""; vo_aud := ""; vo_now := 1000; vo_leeway := 60 |}.
 Definition claims5 : list (string * val) :=
   [("name", VStr "Ann"); ("addr", VObj [("city", VStr "X"); ("zip", VNum 7)]); ("langs", VArr [VStr "de"; VStr "en"])].
 
@@ -170,6 +177,7 @@ Theorem disclose_exact_partial : forall o claims sel payload ds vo hb,
   closedb sel ds = true ->                                   (* the subset is parent-closed *)
   (o_v5 o = true -> akept5 o sel false [] (VObj claims) = true) ->
   issue o claims = Ok (payload, ds) ->
+  payload_time_ok vo payload = true ->                       (* the verifier's clock lies in the validity window *)
   holder_verification vo payload hb = Ok tt ->               (* whatever binding configuration passes *)
   exists out, verify vo {| p_sig_ok := true; p_payload := payload; p_discs := choose sel ds; p_hb := hb |} = Ok out /\
               veq out (reveal o sel claims).
@@ -188,7 +196,7 @@ Theorem disclose_exact_when_accepted_partial : forall o claims sel payload ds vo
 Proof.
   intros o claims sel payload ds vo hb out Ha Hc Hi Hn Hs Hk Hiss Hv.
   destruct (exact_output o claims sel payload ds Ha Hc Hi Hn Hs Hk Hiss) as (Hal & y & Hy & Hveq).
-  apply verify_ok_inv in Hv as (_ & _ & _ & _ & a' & Ha' & Hr). cbn [p_payload p_discs] in *.
+  apply verify_ok_inv in Hv as (_ & _ & _ & _ & _ & a' & Ha' & Hr). cbn [p_payload p_discs] in *.
   rewrite Hal in Ha'. inversion Ha'; subst a'. rewrite Hy in Hr. inversion Hr; subst. exact Hveq.
 Qed.
 Print Assumptions disclose_exact_when_accepted_partial.
@@ -296,8 +304,8 @@ Print Assumptions issue_parseable_refuted.
 (* recursive object + array elements, holder binding required and right: output = visible + chosen *)
 Example disclose_exact_example :
   let sel := [[SKey "addr"]; [SKey "addr"; SKey "city"]; [SKey "langs"; SIdx 1]] in
-  let hb := Some {| hb_key := 1; hb_nonce := "n"; hb_aud := "v"; hb_ok := true |} in
-  let vo := {| vo_required := true; vo_nonce := "n"; vo_aud := "v" |} in
+  let hb := Some {| hb_key := 1; hb_nonce := "n"; hb_aud := "v"; hb_ok := true; hb_iat := Some 990%Z |} in
+  let vo := {| vo_required := true; vo_nonce := "n"; vo_aud := "v"; vo_now := 1000; vo_leeway := 60 |} in
   match flow o5 claims5 sel vo hb with
   | Ok out => equiv out (reveal o5 sel claims5) = true /\
               equiv out (VObj [("iss", VStr "iss"); ("cnf", VObj [("jwk", VNum 1)]);
@@ -329,10 +337,10 @@ Example rejections_example :
       is_ok (verify vo0 (pres (addr ++ [city; city]) None)) = false /\
       is_ok (verify vo0 (pres (addr ++ [retext]) None)) = false /\
       is_ok (verify vo0 (pres (addr ++ [city; retext]) None)) = false /\
-      is_ok (verify {| vo_required := true; vo_nonce := "n"; vo_aud := "" |}
-                    (pres addr (Some {| hb_key := 1; hb_nonce := "m"; hb_aud := ""; hb_ok := true |}))) = false /\
-      is_ok (verify {| vo_required := true; vo_nonce := "n"; vo_aud := "" |}
-                    (pres addr (Some {| hb_key := 1; hb_nonce := "n"; hb_aud := ""; hb_ok := true |}))) = true
+      is_ok (verify {| vo_required := true; vo_nonce := "n"; vo_aud := ""; vo_now := 1000; vo_leeway := 60 |}
+                    (pres addr (Some {| hb_key := 1; hb_nonce := "m"; hb_aud := ""; hb_ok := true; hb_iat := Some 990%Z |}))) = false /\
+      is_ok (verify {| vo_required := true; vo_nonce := "n"; vo_aud := ""; vo_now := 1000; vo_leeway := 60 |}
+                    (pres addr (Some {| hb_key := 1; hb_nonce := "n"; hb_aud := ""; hb_ok := true; hb_iat := Some 990%Z |}))) = true
   | _ => False
   end.
 Proof. vm_compute. repeat split. Qed.
